@@ -150,7 +150,7 @@ REGISTRY = {
     },
     "C14": {
         "rules": [
-            bp.rule_bp_exponent, bp.rule_accumulator_units, bp.rule_bp_normalizers, bp.rule_factor_orientation, bp.rule_damping_order,
+            bp.rule_bp_exponent, bp.rule_accumulator_units, bp.rule_bp_normalizers, bp.rule_factor_orientation, bp.rule_damping_order, bp.rule_dual_refresh,
             P(registries.rule_mode_total, specs=[
                 ("quimb.tensor.belief_propagation.bp_common", "BeliefPropagationCommon.normalize.setter", "normalize"),
                 ("quimb.tensor.belief_propagation.bp_common", "BeliefPropagationCommon.distance.setter", "distance"),
